@@ -119,6 +119,7 @@ var scalarTypes = []reflect.Type{
 	reflect.TypeOf(int(0)), reflect.TypeOf(int8(0)), reflect.TypeOf(int64(0)), reflect.TypeOf(uint(0)), reflect.TypeOf(uint8(0)), reflect.TypeOf(uint64(0)),
 	reflect.TypeOf(float32(0)), reflect.TypeOf(float64(0)), reflect.TypeOf(true), reflect.TypeOf(""), reflect.TypeOf(NInt(0)), reflect.TypeOf(NStr("")),
 	reflect.TypeOf(NBool(false)), reflect.TypeOf(json.Number("")),
+	reflect.TypeOf(Dur(0)), reflect.TypeOf(Lvl("")), reflect.TypeOf(LvlI(0)), reflect.TypeOf(BoolM(false)), reflect.TypeOf(F64M(0)),
 }
 
 func randomConcreteType(depth int) reflect.Type {
@@ -154,7 +155,7 @@ func genDatum() interface{} {
 	case r < 1:
 		return nil
 	case r < 45:
-		t := structTypes[[]int{0, 1, 2, 0, 1, 2, 4, 5, 6}[rng.Intn(9)]] // S4 (whose bad tag poisons every lookup) only rarely
+		t := structTypes[[]int{0, 1, 2, 0, 1, 2, 4, 5, 6, 7}[rng.Intn(10)]] // S4 (whose bad tag poisons every lookup) only rarely
 		if rng.Intn(25) == 0 {
 			t = structTypes[3]
 		}
@@ -342,6 +343,10 @@ func renderLit(s string) string {
 
 func leafLiteral(v reflect.Value) string {
 	pool := []string{"1", "0", "-1", "true", "false", "a", "foo", "zz", "1.5", "0x10", "10", "x y", "", "9223372036854775808", "1e3", "ab", "k", "T", "255", "0.1"}
+	if v.IsValid() && rng.Intn(16) == 0 {
+		// literals at and just beyond the edges of the numeric widths (an out-of-range literal is an error, not a mismatch)
+		return pick(rng, boundaryLits)
+	}
 	if v.IsValid() && rng.Intn(10) != 0 {
 		for v.Kind() == reflect.Interface || v.Kind() == reflect.Ptr {
 			if v.IsNil() {
@@ -376,6 +381,9 @@ func leafLiteral(v reflect.Value) string {
 	}
 	return pool[rng.Intn(len(pool))]
 }
+
+var boundaryLits = []string{"9223372036854775807", "9223372036854775808", "-9223372036854775808", "-9223372036854775809", "18446744073709551615", "18446744073709551616", "127", "128", "-129", "255", "256", "65536",
+	"1e999", "-1e999", "340282346638528859811704183484516925440", "3.5e38", "1e39", "4294967296", "2147483648", "-", "+", ".", "1e", "0x", "_", "Inf", "NaN"}
 
 var patterns = []string{"^a", "b+", "[", "", "o$"}
 
